@@ -175,13 +175,20 @@ def identify_ptms(residue, residue_ptms, known_ptms):
                 gm = nx.isomorphism.GraphMatcher(residue.subgraph(ptm_atoms), mod,
                                                  node_match=nx.isomorphism.categorical_node_match('atomname', ''))
                 match = list(gm.subgraph_isomorphisms_iter())
+                if not match:
+                    # This modification is known for the residue, but it
+                    # describes another group of its atoms.
+                    continue
                 assert len(match) == 1
                 match = match[0]
                 cover.append((mod, match))
                 # (That would be here)
                 known_matched.update(match)
             ptm_atoms -= known_matched
-            assert not ptm_atoms
+            if ptm_atoms:
+                # Not explained by the modifications known for the residue.
+                to_cover.update(ptm_atoms)
+                to_cover.update(anchors)
         else:
             to_cover.update(ptm_atoms)
             to_cover.update(anchors)
